@@ -10,6 +10,11 @@ line per the RFC 2046 subset mdsort documents.  Both are instantiated with the
 same entity reader (`Model.entity`: header lookup and entity parsing, whose own
 correctness is C08/C10).  How `attachment` conditions and blocks quantify over
 the parts, and that errors never count as a match, is in Props/C03.lean (evaluator).
+
+Hypothesis `Proofs.BoundaryOk` (an executable `Bool`, Proofs/Mime.lean): no multipart entity
+reached by the traversal announces a boundary containing a newline.  RFC 2046 boundaries never
+do; without it the statements are false (`C11_parts_unrestricted_false`,
+`C11_body_unrestricted_false`).
 -/
 
 namespace Mdsort.Props
@@ -17,17 +22,68 @@ open Mdsort Mdsort.Model
 
 /-- The parts `message_get_attachments` delivers are, for every entity, exactly the parts
 of the MIME tree in pre-order; an invalid boundary parameter, a missing terminator or
-nesting beyond the limit is an error (`none`), never a shorter list. -/
-theorem C11_parts (m : Msg) : getAttachments m = Spec.parts entity (Gen.mimeDepthLimit + 1) m :=
-  Proofs.parseAttachments_eq_spec (Gen.mimeDepthLimit + 1) m
+nesting beyond the limit is an error (`none`), never a shorter list.
+Hypothesis `BoundaryOk`: every multipart entity of the tree has a newline-free boundary
+(mdsort RFC 2047-decodes the Content-Type value, so `=?x?Q?a=0A?=` can smuggle a newline into
+the boundary; `findboundary` then matches a "delimiter" spanning two lines, which no
+line-based reading of RFC 2046 can). -/
+theorem C11_parts (m : Msg) (h : Proofs.BoundaryOk (Gen.mimeDepthLimit + 1) m = true) :
+    getAttachments m = Spec.parts entity (Gen.mimeDepthLimit + 1) m :=
+  Proofs.parseAttachments_eq_spec_partial (Gen.mimeDepthLimit + 1) m h
 
 /-- The body a `body` condition (and `exec stdin body`) sees: decoded by the entity's own
 Content-Transfer-Encoding; for multipart/alternative the first text/plain part, else the
-first text/html part, else the raw body; undecodable base64 is an error. -/
-theorem C11_body (m : Msg) : getBody m = Spec.decodedBody entity Gen.mimeDepthLimit m :=
-  Proofs.getBody_eq_spec m
+first text/html part, else the raw body; undecodable base64 is an error.
+Hypothesis `BoundaryOk` as for `C11_parts` (it only matters for multipart/alternative, whose
+parts are enumerated). -/
+theorem C11_body (m : Msg) (h : Proofs.BoundaryOk (Gen.mimeDepthLimit + 1) m = true) :
+    getBody m = Spec.decodedBody entity Gen.mimeDepthLimit m :=
+  Proofs.getBody_eq_spec_partial m h
 
 /-- The supported nesting depth (regenerated from message.c). -/
 theorem C11_depth_limit : Gen.mimeDepthLimit = 4 := by decide
+
+/-! ## The statements without the hypothesis, and why they fail -/
+
+/-- `C11_parts` for every message: false. -/
+def C11_parts_unrestricted : Prop :=
+  ∀ m : Msg, getAttachments m = Spec.parts entity (Gen.mimeDepthLimit + 1) m
+
+/-- `C11_body` for every message: false. -/
+def C11_body_unrestricted : Prop :=
+  ∀ m : Msg, getBody m = Spec.decodedBody entity Gen.mimeDepthLimit m
+
+/-- Counterexample `Proofs.cexParts`: `Content-Type: multipart/;boundary="=?x?Q?a=0A?="` with
+body `--a\n\n--a\n--\n`.  The decoded boundary is `a\n`; the model finds the separator
+`--a\n` + `\n` and the terminator `--a\n` + `--\n` and delivers one empty part, the
+specification sees no line equal to `--a\n` and reports the missing terminator. -/
+theorem C11_parts_unrestricted_false : ¬ C11_parts_unrestricted := by
+  intro h
+  have := h Proofs.cexParts
+  rw [Proofs.cexParts_model, Proofs.cexParts_spec] at this
+  cases this
+
+/-- Counterexample `Proofs.cexBody` (the same with `multipart/alternative`): the model returns
+the raw body (one part, neither text/plain nor text/html), the specification an error. -/
+theorem C11_body_unrestricted_false : ¬ C11_body_unrestricted := by
+  intro h
+  have := h Proofs.cexBody
+  rw [Proofs.cexBody_model, Proofs.cexBody_spec] at this
+  cases this
+
+/-! ## Non-vacuity -/
+
+/-- A two-part multipart/alternative message with preamble and epilogue (one header per
+entity: the kernel evaluates `List.mergeSort` only on singletons). -/
+def C11_sample : Msg := parseHeaders (ofString
+  "Content-Type: multipart/alternative; boundary=\"b\"\n\npreamble\n--b\nContent-Type: text/html\n\n<p>hi</p>\n--b\nContent-Type: text/plain\n\nhello!\n--b--\nepilogue\n")
+
+/-- The hypothesis holds for it, it has two parts, and its body is the text/plain part. -/
+example :
+    Proofs.BoundaryOk (Gen.mimeDepthLimit + 1) C11_sample = true ∧
+    (getAttachments C11_sample).map List.length = some 2 ∧
+    (Spec.parts entity (Gen.mimeDepthLimit + 1) C11_sample).map List.length = some 2 ∧
+    getBody C11_sample = some (ofString "hello!\n") := by
+  decide +kernel
 
 end Mdsort.Props
